@@ -10,6 +10,7 @@ import (
 	"github.com/NethermindEth/juno/core"
 	"github.com/NethermindEth/juno/core/felt"
 	"github.com/NethermindEth/juno/l1/eth"
+	"github.com/NethermindEth/juno/starknet"
 )
 
 type visitFn func(name string, mutate func())
@@ -391,15 +392,119 @@ func forEachTamper(b *Built, v visitFn) {
 	}
 	tamperDiff(v, "diff", su.StateDiff)
 	// the class definitions shipped with the block: VerifyClassHashes recomputes every Sierra class hash
+	tamperClasses(v, b)
+}
+
+// tamperClasses: every single-field tampering of a delivered Sierra definition, made at the DEFINITION level
+// (version string, each entry-point field, order and length of the three lists, an entry point moved to another
+// list, ABI bytes, program felts) and sent through juno's adapter again - what a peer or feeder serving a
+// different definition under the same class hash amounts to; plus the cached AbiHash / ProgramHash of the
+// core object, delivery under another key, and a withheld definition.
+func tamperClasses(v visitFn, b *Built) {
 	for i, k := range sortedKeys(b.Classes) {
+		k := k
 		sc, ok := b.Classes[k].(*core.SierraClass)
 		if !ok {
 			continue // Cairo-0 definitions are not verified on acceptance (by design; recorded by classFixtures)
 		}
 		pre := fmt.Sprintf("class.%d.sierra", i)
-		tFelt(v, pre+".programhash", &sc.ProgramHash)
-		tFelt(v, pre+".abihash", &sc.AbiHash)
-		v(pre+".semver", func() { sc.SemanticVersion += "1" })
+		// edit applies f to the definition and replaces the delivered object by its adaptation
+		edit := func(name string, f func(d *starknet.SierraClass)) {
+			v(pre+"."+name, func() {
+				d := defOf(sc)
+				f(d)
+				n, _ := adaptSierra(d)
+				n.Compiled = sc.Compiled
+				b.Classes[k] = n
+			})
+		}
+		edit("semver", func(d *starknet.SierraClass) { d.Version += "1" })
+		if len(sc.SemanticVersion) > 0 {
+			edit("version.droplast", func(d *starknet.SierraClass) { d.Version = d.Version[:len(d.Version)-1] })
+			edit("version.byte0", func(d *starknet.SierraClass) { d.Version = string([]byte{d.Version[0] ^ 1}) + d.Version[1:] })
+		}
+		lists := []struct {
+			name string
+			get  func(d *starknet.SierraClass) *[]starknet.SierraEntryPoint
+			n    int
+		}{
+			{"external", func(d *starknet.SierraClass) *[]starknet.SierraEntryPoint { return &d.EntryPoints.External }, len(sc.EntryPoints.External)},
+			{"l1handler", func(d *starknet.SierraClass) *[]starknet.SierraEntryPoint { return &d.EntryPoints.L1Handler }, len(sc.EntryPoints.L1Handler)},
+			{"constructor", func(d *starknet.SierraClass) *[]starknet.SierraEntryPoint { return &d.EntryPoints.Constructor }, len(sc.EntryPoints.Constructor)},
+		}
+		for li, l := range lists {
+			l, li := l, li
+			for j := 0; j < l.n; j++ {
+				j := j
+				edit(fmt.Sprintf("%s.%d.selector", l.name, j), func(d *starknet.SierraClass) { (*l.get(d))[j].Selector = bump((*l.get(d))[j].Selector) })
+				edit(fmt.Sprintf("%s.%d.index", l.name, j), func(d *starknet.SierraClass) { (*l.get(d))[j].Index++ })
+			}
+			if l.n > 0 {
+				edit(l.name+".droplast", func(d *starknet.SierraClass) { *l.get(d) = (*l.get(d))[:l.n-1] })
+				edit(l.name+".duplast", func(d *starknet.SierraClass) { *l.get(d) = append(*l.get(d), (*l.get(d))[l.n-1]) })
+				// the last entry point goes to the front of the next list: same flattened felts overall, other list boundaries
+				edit(l.name+".movelast", func(d *starknet.SierraClass) {
+					e := (*l.get(d))[l.n-1]
+					*l.get(d) = (*l.get(d))[:l.n-1]
+					nx := lists[(li+1)%3].get(d)
+					*nx = append([]starknet.SierraEntryPoint{e}, *nx...)
+				})
+			}
+			if l.n > 1 {
+				edit(l.name+".swap01", func(d *starknet.SierraClass) {
+					x := *l.get(d)
+					if x[0].Selector.Equal(x[1].Selector) && x[0].Index == x[1].Index {
+						x[0].Index++
+					} else {
+						x[0], x[1] = x[1], x[0]
+					}
+				})
+			}
+			edit(l.name+".add", func(d *starknet.SierraClass) {
+				*l.get(d) = append(*l.get(d), starknet.SierraEntryPoint{Selector: fz(0), Index: 0})
+			})
+		}
+		if len(sc.Abi) > 0 {
+			edit("abi.byte0", func(d *starknet.SierraClass) { d.Abi = string([]byte{d.Abi[0] ^ 1}) + d.Abi[1:] })
+			edit("abi.bytelast", func(d *starknet.SierraClass) {
+				d.Abi = d.Abi[:len(d.Abi)-1] + string([]byte{d.Abi[len(d.Abi)-1] ^ 0x20})
+			})
+			edit("abi.droplast", func(d *starknet.SierraClass) { d.Abi = d.Abi[:len(d.Abi)-1] })
+		}
+		edit("abi.append", func(d *starknet.SierraClass) { d.Abi += " " })
+		edit("abi.appendnul", func(d *starknet.SierraClass) { d.Abi += "\x00" })
+		if len(sc.Program) > 0 {
+			edit("program.elem0", func(d *starknet.SierraClass) { d.Program[0] = *bump(&d.Program[0]) })
+			edit("program.last", func(d *starknet.SierraClass) { d.Program[len(d.Program)-1] = *bump(&d.Program[len(d.Program)-1]) })
+		}
+		edit("program.append0", func(d *starknet.SierraClass) { d.Program = append(d.Program, felt.Zero) })
+		if len(sc.Program) > 3 { // below, the adapter refuses the definition: nothing is delivered at all
+			edit("program.droplast", func(d *starknet.SierraClass) { d.Program = d.Program[:len(d.Program)-1] })
+			edit("program.swaplast2", func(d *starknet.SierraClass) {
+				n := len(d.Program)
+				if d.Program[n-1].Equal(&d.Program[n-2]) {
+					d.Program[n-1] = *bump(&d.Program[n-1])
+				} else {
+					d.Program[n-1], d.Program[n-2] = d.Program[n-2], d.Program[n-1]
+				}
+			})
+		}
+		// the cached hashes of the core object (what SierraClass.Hash reads)
+		v(pre+".programhash", func() { sc.ProgramHash = bump(sc.ProgramHash); b.ClassCacheTampered = true })
+		v(pre+".abihash", func() { sc.AbiHash = bump(sc.AbiHash); b.ClassCacheTampered = true })
+		// the same definition delivered under another key; the definition withheld
+		v(pre+".rekey", func() {
+			delete(b.Classes, k)
+			nk := bump(&k)
+			for {
+				if _, ok := b.Classes[*nk]; !ok {
+					break
+				}
+				nk = bump(nk)
+			}
+			b.Classes[*nk] = sc
+		})
+		v(pre+".withheld", func() { delete(b.Classes, k) })
 	}
 }
 
